@@ -1,7 +1,7 @@
 (* C04 - Seed derivation equals BIP39 PBKDF2-HMAC-SHA512 for every input. *)
 From B39 Require Import Proofs.Calls.
-From B39 Require Import Lib.Base Lib.Nfkd Lib.Pbkdf2 Model.GenTypes Model.Model Model.State Spec.Bip39Spec.
-From B39 Require Import Proofs.LibContract Proofs.Seed Proofs.History.
+From B39 Require Import Lib.Base Lib.Nfkd Lib.Sha512 Lib.Pbkdf2 Model.GenTypes Model.Model Model.State Spec.Bip39Spec.
+From B39 Require Import Proofs.LibContract Proofs.Seed Proofs.History Facts.SeedVector.
 
 (* bip39_seed m p = pbkdf2_hmac_sha512 (nfkd m) ("mnemonic" ++ nfkd p) 2048 64  (Spec/Bip39Spec.v).
    For every normaliser meeting the measured contract of norm.NFKD.String and ALL byte strings m, p
@@ -33,6 +33,12 @@ Example C04_boundary_inside : xsafe (x61 :: concat (repeat [xcc; x81] 30)) = tru
    accounts for (closed world of callees, computed on coq/Gen/Calls.v, regenerated from the source every run) *)
 Theorem C04_callees : reach_ok "MnemonicToSeed" = true.
 Proof. exact calls_seed. Qed.
+
+(* the specification's seed function on the public test vector (abandon x11 about / TREZOR), evaluated by the kernel *)
+Example C04_trezor_vector :
+  hex_of_bytes (bip39_seed abandon_about trezor) =
+  0xc55257c360c07c72029aebc1b53c05ed0362ada38ead3e3e9efa3708e53495531f09a6987599d18264c1e1c92f2cf141630c7a3c4ab7c81b2f001698e7463b04%N.
+Proof. exact seed_vector_trezor. Qed.
 
 Print Assumptions C04_seed.
 Print Assumptions C04_salt_prefix.
